@@ -84,7 +84,7 @@ var c11Exts = []extSpec{
 	{"strike", hasAny("~"), "x:linkify,table,tasklist,deflist,footnote,typographer"},
 	{"table", hasAny("-"), "x:linkify,strike,tasklist,deflist,footnote,typographer"},
 	{"tasklist", hasAny("["), "x:linkify,table,strike,deflist,footnote,typographer"},
-	{"footnote", func(t string) bool { return strings.Contains(t, "[^") || t == "[" || t == "^" }, "x:linkify,table,strike,tasklist,deflist,typographer"},
+	{"footnote", func(t string) bool { return strings.Contains(t, "[^") }, "x:linkify,table,strike,tasklist,deflist,typographer"},
 	{"deflist", hasAny(":"), "x:linkify,table,strike,tasklist,footnote,typographer"},
 	{"typographer", hasAny("'\"-.<>"), "x:linkify,table,strike,tasklist,deflist,footnote"},
 	{"linkify", func(t string) bool {
@@ -95,7 +95,7 @@ var c11Exts = []extSpec{
 // the same extensions built through their option-bearing constructors with every option set (incl. wrapped html options):
 // an extension is an extension however it was constructed
 var c11OptExts = []extSpec{
-	{"footnote-opt", func(t string) bool { return strings.Contains(t, "[^") || t == "[" || t == "^" }, ""},
+	{"footnote-opt", func(t string) bool { return strings.Contains(t, "[^") }, ""},
 	{"table-opt", hasAny("-"), ""},
 	{"linkify-opt", func(t string) bool {
 		return strings.ContainsAny(t, ":@") || strings.Contains(t, "www.") || t == "w" || t == "."
@@ -170,12 +170,42 @@ func runC11(r *core.Run) {
 					c11Pollute()
 					x := core.NewConv(with)
 					var tmp []byte
-					return func(word []byte) uint64 { return c11Case(s, b, x, word, e.name, &tmp) }
+					return func(word []byte) uint64 {
+						if c11DocTrigger(e.name, word) {
+							return 0 // adjacent tokens spell the trigger (e.g. '[' + '^'): outside the statement
+						}
+						return c11Case(s, b, x, word, e.name, &tmp)
+					}
 				})
 		}
 	}
 	for _, e := range c11Exts {
 		c11Structured(r, e.name, core.MustCfg("core"), core.MustCfg("x:"+e.name))
+	}
+	// longer words over the characters each extension's syntax is made of, minus whatever spells the trigger itself
+	for _, f := range []struct {
+		ext  string
+		toks []string
+		nq   int
+		nt   int
+	}{
+		{"footnote", []string{"!", "[", "^", "]", "a", "*", ":", " "}, 7, 8},
+		{"tasklist", []string{"-", " ", "x", "]", "(", ")", "a", "\n"}, 7, 8},
+		{"strike", []string{"-", "*", "a", " ", "_", "\\", "\n", "="}, 7, 8},
+		{"deflist", []string{"a", "\n", " ", "-", ";", "~", "    ", ">"}, 7, 8},
+	} {
+		base, with := core.MustCfg("core"), core.MustCfg("x:"+f.ext)
+		wordsSub(r, "focused/"+f.ext, fmt.Sprintf("words of the characters %s's syntax is made of, without its trigger: R under %s == R under core; distinct = output digest", f.ext, with),
+			f.toks, core.Pick(r, f.nq, f.nt), func(s *core.Sub, w int) func([]byte) uint64 {
+				b, x := core.NewConv(base), core.NewConv(with)
+				var tmp []byte
+				return func(word []byte) uint64 {
+					if c11DocTrigger(f.ext, word) {
+						return 0
+					}
+					return c11Case(s, b, x, word, f.ext, &tmp)
+				}
+			})
 	}
 	// one parser.Context (parser.WithContext) shared by a run of conversions: first a document that uses the extension's
 	// syntax (and every other extension's), then trigger-free documents of the corpus, with and without the extension
@@ -252,7 +282,12 @@ func runC11(r *core.Run) {
 				toks, n, func(s *core.Sub, w int) func([]byte) uint64 {
 					b, x := core.NewConv(base), core.NewConv(with)
 					var tmp []byte
-					return func(word []byte) uint64 { return c11Case(s, b, x, word, e.name, &tmp) }
+					return func(word []byte) uint64 {
+						if c11DocTrigger(e.name, word) {
+							return 0
+						}
+						return c11Case(s, b, x, word, e.name, &tmp)
+					}
 				})
 		}
 		c11Structured(r, e.name, core.MustCfg("core"), core.MustCfg("x:"+e.name))
